@@ -254,8 +254,11 @@ CLAIMS = {
               "input is no sentence at the end), C12_glr_error_index_is_first_offending (k is the length of the longest viable "
               "prefix); the engine model is tied to the real GlrParser by C03's correspondence, the real GLR errors are compared with "
               "the same oracle here. PARTIAL: termination (that a non-sentence eventually returns the error) is a theorem for LR with "
-              "the default lexer only (C15_lr_terminates), a hypothesis for GLR; LexDet is a hypothesis (validated per input by the "
-              "correspondence runs); the CONTENT of the GLR expected list is compared with the oracle only."),
+              "the default lexer only (C15_lr_terminates), a hypothesis for GLR; LexDet is DISCHARGED for single-character-terminal grammars with whitespace skipping, full "
+              "parse, no Layout rule (Props/C03Bytes.lean: C12_glr_bytes(_ws)_* with executable hypotheses only - Cert.singleCharLexer, "
+              "charEnvWsOk, knownToks, lexUniqueOk - evaluated by the driver per table and input, `glr lexdet`: 2326 of 3836 GLR inputs of a "
+              "quick run; the rest has a Layout rule or bytes outside the alphabet) and a hypothesis elsewhere; the CONTENT of the GLR "
+              "expected list is compared with the oracle only."),
         design_ref="5/C12",
         note=TRUST + "; scope: reduced grammars (every nonterminal productive) in C01/C03 scope",
         technique="Lean 4 proof (valid-prefix property of LR over verified table certificates) + differential correspondence + Earley viable-prefix oracle"),
@@ -277,7 +280,9 @@ CLAIMS = {
               "never give elisions of one derivation) holds given PossFacts + repetition-free roots of the result graph, which the driver "
               "evaluates as a Bool (Glr.possFactsB, soundness possFactsB_sound) on the model's result of EVERY input (`glr nodup`, "
               "per-input certificate; the model's graph is tied to the real SPPF by the correspondence). PARTIAL: that the run "
-              "establishes PossFacts for all inputs is not a theorem (the coarse statement with Tree.EqElide is proved FALSE); LexDet is a hypothesis (lexically ambiguous inputs are inside soundness/no-panic/"
+              "establishes PossFacts for all inputs is not a theorem (the coarse statement with Tree.EqElide is proved FALSE); LexDet is "
+              "discharged from executable certificates for single-character terminals, full parse, no Layout rule "
+              "(C03_bytes(_ws)_engine_complete, Props/C03Bytes.lean; lexDet_of_singleChar(_ws)), otherwise LexDet is a hypothesis (lexically ambiguous inputs are inside soundness/no-panic/"
               "correspondence only); termination; cyclic SPPFs excluded (hasCut). Those parts are decided by the independent "
               "derivation counter/enumerator (token-level and character-level) on generated grammars x all strings up to a bound."),
         design_ref="0/C03, notes/Glr.md",
